@@ -89,7 +89,7 @@ impl Prop for C15 {
         let (tree, shape) = self.topology(i, r, tier);
         let mut sc = Scenario::new("C15", "calls");
         let sign = pick_feed_sign(r, std::slice::from_ref(&tree));
-        let shape = shape.unwrap_or_else(|| r.below(SHAPES.len()) as u8);
+        let shape = crate::feed::shape_for(std::slice::from_ref(&tree), shape.unwrap_or_else(|| r.below(SHAPES.len()) as u8));
         // magnitudes {0} u [1e-3, 1e6]
         let scale = crate::feed::pick_scale(r, !tree.needs_positive_feed() && !tree.contains(K::Mul));
         let len = if r.chance(0.003) {
